@@ -69,6 +69,70 @@ pub fn run(ctx: &mut Ctx) {
             (text("itemsRequest"), Value::Tag(24, Box::new(bytes(&to_bytes(&Value::Map(vec![(text("docType"), text(MDL)), (text("nameSpaces"), Value::Map(vec![(text(NS), Value::Map(vec![(text("family_name"), Value::Bool(false))]))]))])))))),
             (text("readerAuth"), arr(vec![bytes(&[0xa1, 0x01, 0x26]), Value::Map(vec![(Value::Integer(33.into()), bytes(&der::Encode::to_der(&pki.reader).unwrap()))]), Value::Null, bytes(&[7; 64])])),
         ])]))]);
+        // ---- systematic streams (run once per scene, before the random mutations) ----
+        // (S1) the QR text itself: every non-ASCII / truncated / re-cased variant around the scheme prefix and inside
+        // the base64 part (a scanner hands over arbitrary text, not only well-formed URIs)
+        {
+            let mut texts: Vec<String> = vec!["".into(), "m".into(), "mdoc".into(), "mdoc:".into(), "MDOC:".into(), "mdoc:=".into(), "mdoc:\u{0}".into(), format!("MDOC:{}", &qr[5..]), format!("Mdoc:{}", &qr[5..])];
+            let glyphs = ["\u{e9}", "\u{20ac}", "\u{fffd}", "\u{1d11e}", "\u{0}", " "];
+            let qb: Vec<char> = qr.chars().collect();
+            let mut offsets: Vec<usize> = (0..=12.min(qb.len())).collect();
+            for _ in 0..6 { offsets.push(rng.gen_range(0..=qb.len())); }
+            offsets.push(qb.len());
+            for &o in &offsets {
+                for g in glyphs {
+                    let ins: String = qb[..o].iter().collect::<String>() + g + &qb[o..].iter().collect::<String>();
+                    texts.push(ins);
+                    if o < qb.len() { texts.push(qb[..o].iter().collect::<String>() + g + &qb[o + 1..].iter().collect::<String>()); }
+                    texts.push(qb[..o].iter().collect::<String>() + g);
+                }
+                texts.push(qb[..o].iter().collect());
+            }
+            for t in texts {
+                let (t1, t2, f2) = (t.clone(), t.clone(), first.clone());
+                attempt(ctx, "from_qr_code_uri(text)", hex::encode(t.as_bytes()), move || match Tag24::<DeviceEngagement>::from_qr_code_uri(&t1) { Ok(_) => "accepted", Err(_) => "rejected" });
+                attempt(ctx, "establish_session(text)", hex::encode(t.as_bytes()), move || match reader::SessionManager::establish_session(t2, namespaces_of(&f2), Default::default()) { Ok(_) => "accepted", Err(_) => "rejected" });
+            }
+        }
+        // (S2) the peer's ephemeral COSE_Key: the full matrix of key type x curve x coordinate length x y form, as
+        // EReaderKey (device side) and as EDeviceKey of the engagement (reader side).  Combinations, not single edits.
+        {
+            let good = from_bytes(&sc.erk_bytes).unwrap();
+            let coord = |l: i64| good.as_map().unwrap().iter().find(|(k, _)| k.as_integer().map(i128::from) == Some(l as i128)).map(|(_, v)| v.as_bytes().unwrap().clone()).unwrap();
+            let (gx, gy) = (coord(-2), coord(-3));
+            let resize = |b: &Vec<u8>, n: usize| { let mut v = b.clone(); v.resize(n, 7); v };
+            let mut keys: Vec<Vec<u8>> = vec![];
+            for kty in [2i64, 1, 3] { for crv in [1i64, 2, 3, 8, 6, 99] {
+                for xl in [0usize, 1, 31, 32, 33, 48, 66] {
+                    let ys: Vec<Option<Value>> = vec![Some(bytes(&gy)), Some(bytes(&resize(&gy, 31))), Some(bytes(&resize(&gy, 33))), Some(bytes(&[])), Some(Value::Bool(true)), Some(Value::Bool(false)), None, Some(Value::Integer(1.into())), Some(Value::Null)];
+                    for y in ys {
+                        if kty != 2 && crv > 3 && xl % 2 == 1 { continue; } // thin the OKP / unknown-type corner
+                        let mut m = vec![(Value::Integer(1.into()), Value::Integer(kty.into())), (Value::Integer((-1).into()), Value::Integer(crv.into())), (Value::Integer((-2).into()), bytes(&resize(&gx, xl)))];
+                        if let Some(y) = y { m.push((Value::Integer((-3).into()), y)); }
+                        keys.push(to_bytes(&Value::Map(m)));
+                    }
+                }
+            } }
+            for kb in keys {
+                // device side
+                let mut ev = est_v.clone();
+                if let Some(slot) = rauth::map_get_mut(&mut ev, "eReaderKey") { *slot = Value::Tag(24, Box::new(bytes(&kb))); }
+                let b = to_bytes(&ev);
+                let eng = engaged.clone();
+                attempt(ctx, "process_session_establishment(key matrix)", hex::encode(&kb), move || match isomdl::cbor::from_slice::<SessionEstablishment>(&b) {
+                    Ok(se) => match eng.process_session_establishment(se, Default::default()) { Ok(_) => "accepted", Err(_) => "refused" },
+                    Err(_) => "undecodable",
+                });
+                // reader side: the engagement's security element [cipher suite, EDeviceKeyBytes]
+                let mut dv = de_v.clone();
+                if let Value::Map(m) = &mut dv {
+                    for (k, v) in m.iter_mut() { if k.as_integer().map(i128::from) == Some(1) { *v = arr(vec![uint(1), Value::Tag(24, Box::new(bytes(&kb)))]); } }
+                }
+                let uri = format!("mdoc:{}", base64::encode_config(to_bytes(&dv), base64::Config::new(base64::CharacterSet::UrlSafe, false)));
+                let f2 = first.clone();
+                attempt(ctx, "establish_session(key matrix)", hex::encode(&kb), move || match reader::SessionManager::establish_session(uri, namespaces_of(&f2), Default::default()) { Ok(_) => "accepted", Err(_) => "rejected" });
+            }
+        }
         for i in 0..per_scene {
             match i % 12 {
                 0 => { // QR code parsing and reader establishment
